@@ -823,3 +823,13 @@ func (w *World) tagHandlers() map[string]*types.Func {
 	w.tagHandlersMemo = out
 	return out
 }
+
+// isNodeStruct: name of a struct type of the package whose pointer implements Node
+func (w *World) isNodeStruct(name string) bool {
+	for _, n := range w.nodeStructs() {
+		if n.Obj().Name() == name {
+			return true
+		}
+	}
+	return false
+}
